@@ -1,4 +1,5 @@
 import Ruint.Lemmas.Conv
+import Ruint.Lemmas.GenConv
 
 /-!
 # C07 — integer conversions accept exactly the representable range, preserving value
@@ -422,5 +423,59 @@ example : tryFrom 200 ⟨8, true⟩ (-1) = .negative 200 [255, 0, 0, 0] := by de
 example : tryTo false ⟨8, true⟩ 65 [2 ^ 64 - 128, 1] = .overflow 65 (-128) 127 := by decide +kernel
 example : tryTo false ⟨128, true⟩ 129 [0, 2 ^ 63, 0] = .overflow 129 (-(2 ^ 127)) (2 ^ 127 - 1) := by
   decide +kernel
+
+/-! ### conversions regenerated whole from `src/from.rs` (`Gen/WordsConv.lean`)
+
+`TryFrom<u64>`, `TryFrom<u128>`, `const_from_u64`, and `TryFrom<&Uint>` for every primitive target (the `to_int!` macro body
+instantiated per type, `u128`, `i128`, `bool`) as the source defines them, translated on every run, equal the models of the
+theorems above. In the generated code primitive integers are two's-complement bit patterns and an error is (variant index,
+fields): `GenConv.toToRes`, `toPat`, `toPatB` are the maps. The signed `TryFrom` impls, `from` / `wrapping_from` /
+`saturating_from` / `to…` (matches on the error variants) and `Uint`↔`Uint` stay hand-modelled (correspondence). -/
+
+open Ruint.GenConv in
+theorem gen_try_from_u64_eq (bits : ℕ) (hN : nlimbs bits < 2 ^ 64) (value : ℕ) (hv : value < 2 ^ 64) :
+    toToRes (Ruint.Gen.uint_try_from_u64 bits (nlimbs bits) value) = tryFromU64 bits value :=
+  try_from_u64_eq bits hN value hv
+
+open Ruint.GenConv in
+theorem gen_try_from_u128_eq (bits : ℕ) (hN : nlimbs bits < 2 ^ 64) (value : ℕ) (hv : value < 2 ^ 128) :
+    toToRes (Ruint.Gen.uint_try_from_u128 bits (nlimbs bits) value) = tryFromU128 bits value :=
+  try_from_u128_eq bits hN value hv
+
+theorem gen_const_from_u64_eq (bits : ℕ) (hN : nlimbs bits < 2 ^ 64) (x : ℕ) (hx : x < 2 ^ 64) :
+    Ruint.Gen.uint_const_from_u64 bits (nlimbs bits) x = Ruint.Canon.constFromU64 bits x :=
+  Ruint.GenConv.const_from_u64_eq bits hN x hx
+
+section toPrim
+open Ruint.GenConv
+variable (bits : ℕ) (hN : nlimbs bits < 2 ^ 57) (l : List ℕ) (hl : Canon bits l) (f : ℕ) (hf : nlimbs bits < f)
+include hN hl hf
+
+/-- the ten `to_int!` targets -/
+theorem gen_to_int_eq :
+    Ruint.Gen.i8_try_from_uint f bits (nlimbs bits) l = toPat ⟨8, true⟩ (toInt ⟨8, true⟩ bits l)
+    ∧ Ruint.Gen.u8_try_from_uint f bits (nlimbs bits) l = toPat ⟨8, false⟩ (toInt ⟨8, false⟩ bits l)
+    ∧ Ruint.Gen.i16_try_from_uint f bits (nlimbs bits) l = toPat ⟨16, true⟩ (toInt ⟨16, true⟩ bits l)
+    ∧ Ruint.Gen.u16_try_from_uint f bits (nlimbs bits) l = toPat ⟨16, false⟩ (toInt ⟨16, false⟩ bits l)
+    ∧ Ruint.Gen.i32_try_from_uint f bits (nlimbs bits) l = toPat ⟨32, true⟩ (toInt ⟨32, true⟩ bits l)
+    ∧ Ruint.Gen.u32_try_from_uint f bits (nlimbs bits) l = toPat ⟨32, false⟩ (toInt ⟨32, false⟩ bits l)
+    ∧ Ruint.Gen.i64_try_from_uint f bits (nlimbs bits) l = toPat ⟨64, true⟩ (toInt ⟨64, true⟩ bits l)
+    ∧ Ruint.Gen.u64_try_from_uint f bits (nlimbs bits) l = toPat ⟨64, false⟩ (toInt ⟨64, false⟩ bits l)
+    ∧ Ruint.Gen.isize_try_from_uint f bits (nlimbs bits) l = toPat ⟨64, true⟩ (toInt ⟨64, true⟩ bits l)
+    ∧ Ruint.Gen.usize_try_from_uint f bits (nlimbs bits) l = toPat ⟨64, false⟩ (toInt ⟨64, false⟩ bits l) :=
+  ⟨i8_try_from_uint_eq bits hN l hl f hf, u8_try_from_uint_eq bits hN l hl f hf, i16_try_from_uint_eq bits hN l hl f hf,
+   u16_try_from_uint_eq bits hN l hl f hf, i32_try_from_uint_eq bits hN l hl f hf, u32_try_from_uint_eq bits hN l hl f hf,
+   i64_try_from_uint_eq bits hN l hl f hf, u64_try_from_uint_eq bits hN l hl f hf, isize_try_from_uint_eq bits hN l hl f hf,
+   usize_try_from_uint_eq bits hN l hl f hf⟩
+
+theorem gen_to_128_eq :
+    Ruint.Gen.u128_try_from_uint f bits (nlimbs bits) l = toPat ⟨128, false⟩ (toInt128 ⟨128, false⟩ bits l)
+    ∧ Ruint.Gen.i128_try_from_uint f bits (nlimbs bits) l = toPat ⟨128, true⟩ (toInt128 ⟨128, true⟩ bits l) :=
+  ⟨u128_try_from_uint_eq bits hN l hl f hf, i128_try_from_uint_eq bits hN l hl f hf⟩
+
+theorem gen_to_bool_eq : Ruint.Gen.bool_try_from_uint f bits (nlimbs bits) l = toPatB (toBool bits l) :=
+  bool_try_from_uint_eq bits hN l hl f hf
+
+end toPrim
 
 end Ruint.C07
